@@ -20,6 +20,10 @@ CHECKS = {
    technique="property-based testing (rapid) of write/flush histories with independent Forward (own MessagePack decoder) and gzip+JSON decoders; boundary enumeration around byte and record limits",
    text="Generated sequences of WriteStream/FlushBuffer calls (caller buffer reused and overwritten like the serializer's) through Config.NewChunkMaker of the Forward, PackedForward, CompressedPackedForward and Datadog outputs; every chunk must decode, carry the tag, option.chunk == LogChunk.ID (accepted by MatchChunkID, unique, increasing), option.size == number of entries; the concatenation of all chunks equals the written sequence byte for byte; no chunk exceeds the byte/record limit unless it holds one record; flushing nothing yields nothing.",
    note="Forward limits are set small through hook H3 (SetChunkLimitsForVerif); production 7 MiB limits are exercised in the thorough tier; Datadog limits are production constants. The same-nanosecond branch of the chunk ID generator cannot be reached without a clock hook (not claimed)."),
+ "C14": dict(engine="c14redact", category="exploration", design="§3 C14",
+   technique="property-based testing (rapid): constructive texts with construction-known answer + arbitrary texts checked by a DP alignment against span-validity and coverage predicates; exhaustive short strings over the critical alphabet",
+   text="(A) Texts F0 A1 F1 .. An Fn with generated addresses and closed filler atoms (lone @, x@, @x, dot-less, numeric, slash-preceded, multi-byte, invalid bytes, escapes; adjacency; truncated domain at end of text) must become exactly fillers+REDACTED and count once; every non-address byte enumerated as neighbour. (B) Arbitrary texts (all strings <=5 over {a,1,.,@,/,space,-}, soups, edited constructive texts, raw bytes): a dynamic-programming alignment must map input to output using only valid redaction spans, cover every unambiguous address found by an independently written matcher, cover no purely numeric / slash-preceded / unshaped '@', and preserve everything else.",
+   note="Supported shape uses maximal-run semantics (an address is the maximal run of address characters around '@'); domains that start and end with a digit but contain letters are a documented grey zone in which either behaviour is accepted. The escape caveat documented in config_sample.yml (\\nbob@x.y swallows the n) is respected by the generator."),
 }
 
 NOT_YET = {}
